@@ -157,7 +157,6 @@ func buildWorld(rt *rapid.T, label string) *world {
 		m.Commit(gen.Pick(rt, []int{0, 1, 2, 3, 64}, label+"lvl"))
 	}
 	// the trie a proof is taken from was reached by a history, not only by inserts
-	m.RT = rt
 	if m.Churn(rt, pool, &counter, label+"churn") > 0 {
 		ev.Class("world-reached-by-history", 1)
 	}
